@@ -256,6 +256,23 @@ def apply_simple_op(world, op):
     """non-randomize operations: applied to the real object and to the shadow"""
     k = op[0]
     vsc = world.vsc
+    if k == "cg_fault":
+        # construction of a covergroup aborted by an exception after expressions were evaluated; nothing of it may reach later calls
+        src = {
+            "typo_kwarg": "self.cp = vsc.coverpoint(self.a, iff=(self.en == 1), binz=dict(x=vsc.bin_array([], (0, 15))))",
+            "user_raise": "e = (self.a == 3)\n        raise UserFault('cg-ctor')",
+            "user_raise_two": "e = (self.a == 3)\n        f = (self.en != self.a)\n        raise UserFault('cg-ctor')",
+        }[op[1]]
+        ns = dict(world.ns)
+        ns["vsc"] = vsc
+        code = ("@vsc.covergroup\nclass CGF(object):\n    def __init__(self):\n        self.with_sample(dict(a=vsc.bit_t(4), en=vsc.bit_t(1)))\n"
+                "        %s\n" % src)
+        exec(code, ns)
+        try:
+            ns["CGF"]()
+        except Exception:
+            pass
+        return
     if k == "illformed_call":
         # a randomize_with whose inline body is ill-formed (refers to an element the list does not have): whatever it raises is the
         # user's; what is checked is that the object is usable and idle afterwards
